@@ -233,7 +233,7 @@ def session_segments_case(rng):
               destination=PhoneNumber('38591%d' % rng.randrange(1000), TON.NATIONAL, NPI.ISDN),
               service_type=rng.choice(('', 'CMT', 'WAP')), protocol_id=rng.choice((0, 0x7F)),
               priority_flag=rng.choice((0, 1, 3)), registered_delivery=rng.choice((0, 1, 17)),
-              esm_class=(0x40 if udh else 0) | rng.choice((0, 3)))
+              esm_class=(0x40 if udh else 0) | rng.choice((0, 3, 0x80, 0x83, 0x04)))
     m = SubmitSm(**kw)
     n_own = len(params)
     obs = c06.batch([m], 'gsm0338')
@@ -342,7 +342,7 @@ def session_segments_case(rng):
 
 def generate(rng, tier):
     thorough = tier == 'thorough'
-    for _ in range(40 if thorough else 12):
+    for _ in range(60 if thorough else 16):
         yield session_segments_case(rng)
     refs = (0, 1, 255, 256, 65535)
     # (function, gsm?, ref-width) -> (single limit in cells, chunk size in cells)
